@@ -100,6 +100,9 @@ CLAIM = "2020-01-01-00:00:00.000,6,60928,%d,255,8,e9,03,e0,e7,00,82,32,c0"
 ADDRS = [(8, 255, 3), (0, 255, 3), (8, 0, 3), (8, 35, 0), (0, 0, 0), (253, 254, 7), (8, 255, 6)]
 
 
+TEXTS = ["Zoë".encode(), "漢字 \U0001F6A4".encode(), b"Caf\xe9", "Mar\u00eda".encode()[:4], b"\x80abc", b"ab\xff", b"\xe6\xbc", b"a\xc3(b", b"\xed\xa0\x80x"]
+
+
 def lau(text: str) -> bytes:
     b = text.encode("utf-8")
     return bytes([len(b) + 2, 1]) + b
@@ -117,6 +120,9 @@ def dump_histories(db, rng: random.Random, wd, tier: str):
         lines.append(corpus.basic_string(65280, bytes([0x3F, 0x9F, i, 0, 0, 0, 0xFF, 0xFF]), src=5))
     for txt in (("plain", "ascii", "text"), ("wórld", "Café del Mar", "x"), ("漢字", "Γειά", "\U0001F6A4")):
         p = cfginfo(*txt)
+        lines.append(corpus.basic_string(126998, p, src=6))
+    for k, raw in enumerate(TEXTS):
+        p = b"".join(bytes([len(t) + 2, 1]) + t for t in (raw, b"plain", TEXTS[(k + 3) % len(TEXTS)]))
         lines.append(corpus.basic_string(126998, p, src=6))
     # several definitions of one PGN number (ISO transport protocol 60416: RTS, CTS, EOM, BAM, abort), each sent
     # more than once and in varying order: a filter by id selects one definition, not the number
@@ -169,7 +175,11 @@ def dump_histories(db, rng: random.Random, wd, tier: str):
             except Exception:              # noqa: BLE001
                 m = None
             if m is not None:
-                out.append({"pgn": m.PGN, "id": m.id, "json": m.to_json()})
+                try:
+                    js = m.to_json()
+                except Exception as e:     # noqa: BLE001      (no line of a dump file can equal this)
+                    js = f"<to_json raised {type(e).__name__}>"
+                out.append({"pgn": m.PGN, "id": m.id, "json": js})
         dec.close()
         try:
             text = path.read_bytes().decode("utf-8")
@@ -202,6 +212,11 @@ def bind(chk: Check, tier: str, seed: int):
             [(f"rand{k}", corpus.build_payload(d, {}, rng)) for k in range(nrand)]
         if tier != "thorough" and len(gens) > 14:
             gens = gens[:2] + rng.sample(gens[2:], 12)
+        # texts as devices send them: well-formed non-ASCII, Latin-1 bytes, a multi-byte character cut at a length limit, stray
+        # continuation and 0xFF bytes (whatever the decoder makes of them must survive JSON)
+        tf = [i for i, f in enumerate(d["fields"]) if f["kind"] in ("strlau", "strlz")]
+        for k, txt in enumerate(TEXTS if tf else ()):
+            gens.append((f"text-bytes{k}", corpus.build_payload(d, {i: (txt if (j + k) % 2 == 0 else b"ok") for j, i in enumerate(tf)}, rng)))
         for tag, payload in gens:
             use = decn if (n_ok % 3 == 2) else dec
             try:
